@@ -7,31 +7,24 @@ Open Scope Z_scope.
 
 (* ---------------------------------------------------------------- volume sizes (c -v SIZE) *)
 
-(* "multi-volume creation accepts every volume size its help describes"
-     forall s, in_help_grammar s = true -> volumesize_unitconv s = Ok (help_size s)
-   is FALSE of the code: "1000" (documented: {Size}[b|k|m|g], unit optional) passes the validity
-   check and then dies with KeyError '' in _volumesize_unitconv. *)
-Theorem C19_volsize_accepts_help_grammar_refuted :
-  exists s, in_help_grammar s = true /\ volumesize_unitconv s = Err EOther
-            /\ check_volumesize_valid s = true /\ volumesize_unitconv_x s = UcKeyError.
-Proof. exact volsize_accepts_help_grammar_refuted. Qed.
-Print Assumptions C19_volsize_accepts_help_grammar_refuted.
+(* "multi-volume creation accepts every volume size its help describes": every string of the documented
+   grammar {Size}[b|k|m|g] (unit optional = bytes) with at most 4300 digits passes the validity check and is
+   converted to the number of bytes it denotes *)
+Theorem C19_volsize_accepts_help_grammar : forall s,
+  in_help_grammar s = true -> num_digits s <= 4300 ->
+  check_volumesize_valid s = true /\ volumesize_unitconv s = Ok (help_size s).
+Proof. exact volsize_accepts_help_grammar. Qed.
+Print Assumptions C19_volsize_accepts_help_grammar.
 
-(* ... and so does every documented size without a unit letter *)
-Theorem C19_volsize_unitless_always_fails : forall s,
-  in_help_grammar s = true -> has_unit_suffix s = false -> volumesize_unitconv s = Err EOther.
-Proof. exact volsize_unitless_always_fails. Qed.
-Print Assumptions C19_volsize_unitless_always_fails.
-
-(* what holds: with a unit letter (and at most 4300 digits) the size denoted is computed *)
-Theorem C19_volsize_accepts_help_grammar_partial : forall s,
-  in_help_grammar s = true -> has_unit_suffix s = true -> Z.of_nat (length s) <= 4301 ->
-  volumesize_unitconv s = Ok (help_size s).
-Proof. exact volsize_accepts_help_grammar_partial. Qed.
-Print Assumptions C19_volsize_accepts_help_grammar_partial.
+(* the bound is CPython's int() digit limit and is sharp: beyond it ValueError escapes, so the statement
+   without the bound is false (sizes of 10^4300 bytes) *)
+Theorem C19_volsize_digit_limit : forall s,
+  in_help_grammar s = true -> 4300 < num_digits s -> volumesize_unitconv_x s = UcValueError.
+Proof. exact volsize_digit_limit. Qed.
+Print Assumptions C19_volsize_digit_limit.
 
 Theorem C19_volsize_too_many_digits_refuted :
-  exists s, in_help_grammar s = true /\ has_unit_suffix s = true /\ volumesize_unitconv_x s = UcValueError.
+  exists s, in_help_grammar s = true /\ volumesize_unitconv_x s = UcValueError.
 Proof. exact volsize_too_many_digits_refuted. Qed.
 Print Assumptions C19_volsize_too_many_digits_refuted.
 
@@ -68,7 +61,7 @@ Proof. exact check_valid_covers_help. Qed.
 Print Assumptions C19_check_valid_covers_help.
 
 (* check_volumesize_valid s = in_help_grammar s is FALSE: "1K" and "1k\n" are accepted (and work),
-   "1<U+212A>" is accepted and then dies with KeyError *)
+   "1<U+212A>" is accepted and then dies with KeyError (kept as an observation: not a documented size) *)
 Theorem C19_check_valid_eq_help_refuted :
   exists s1 s2 s3, (check_volumesize_valid s1 = true /\ in_help_grammar s1 = false /\ volumesize_unitconv s1 = Ok 1024) /\
                    (check_volumesize_valid s2 = true /\ in_help_grammar s2 = false /\ volumesize_unitconv s2 = Ok 1024) /\
@@ -105,38 +98,24 @@ Theorem C19_extract_damaged_nonzero : forall p v L,
 Proof. exact extract_damaged_nonzero. Qed.
 Print Assumptions C19_extract_damaged_nonzero.
 
-(* t: `cli_status CmdT L = Some 0 <-> test_success L = true` is FALSE: a folder-level CRC mismatch
-   (CrcError whose filename is None, raised by Worker.decompress) makes testzip() return None = "good"; the same
-   archive makes x exit 1 *)
-Theorem C19_exit_status_truthful_t_refuted :
-  exists L, cli_status CmdT L = Some 0 /\ test_success L = false /\ l_work L = Some (XCrc false)
-            /\ proc_status (run_extract false false L) = 1.
-Proof. exact exit_status_truthful_t_refuted. Qed.
-Print Assumptions C19_exit_status_truthful_t_refuted.
-
-(* what holds for t: that outcome is the only one mis-reported *)
-Theorem C19_exit_status_truthful_t_partial : forall L, l_work L <> Some (XCrc false) ->
-  (cli_status CmdT L = Some 0 <-> test_success L = true).
-Proof. exact exit_status_truthful_t_partial. Qed.
-Print Assumptions C19_exit_status_truthful_t_partial.
-
-Theorem C19_test_success_status_zero : forall L, test_success L = true -> cli_status CmdT L = Some 0.
-Proof. exact test_success_status_zero. Qed.
-Print Assumptions C19_test_success_status_zero.
-
-Theorem C19_test_false_zero_only_folder_crc : forall L,
-  cli_status CmdT L = Some 0 -> test_success L = false ->
-  l_is7z L = true /\ l_open L = None /\ l_info L = None /\ l_work L = Some (XCrc false).
-Proof. exact test_false_zero_only_folder_crc. Qed.
-Print Assumptions C19_test_false_zero_only_folder_crc.
+(* t: status 0 exactly when the operation succeeded *)
+Theorem C19_exit_status_truthful_t : forall L, cli_status CmdT L = Some 0 <-> test_success L = true.
+Proof. exact exit_status_truthful_t. Qed.
+Print Assumptions C19_exit_status_truthful_t.
 
 Theorem C19_test_damaged_nonzero : forall L,
-  l_is7z L = false \/ l_open L <> None \/ (l_work L <> None /\ l_work L <> Some (XCrc false)) ->
-  proc_status (run_test L) <> 0.
+  l_is7z L = false \/ l_open L <> None \/ l_work L <> None -> proc_status (run_test L) <> 0.
 Proof. exact test_damaged_nonzero. Qed.
 Print Assumptions C19_test_damaged_nonzero.
 
-Theorem C19_testzip_none_iff : forall w, testzip w = TzNone <-> (w = None \/ w = Some (XCrc false)).
+(* in particular a folder-level CRC mismatch (CrcError whose filename is None, raised by Worker.decompress;
+   testzip() then returns "(folder checksum)") makes t, like x, exit non-zero *)
+Theorem C19_folder_crc_nonzero : forall L, l_work L = Some (XCrc false) ->
+  proc_status (run_test L) <> 0 /\ proc_status (run_extract false false L) <> 0.
+Proof. exact folder_crc_nonzero. Qed.
+Print Assumptions C19_folder_crc_nonzero.
+
+Theorem C19_testzip_none_iff : forall w, testzip w = TzNone <-> w = None.
 Proof. exact testzip_none_iff. Qed.
 Print Assumptions C19_testzip_none_iff.
 
@@ -147,20 +126,13 @@ Print Assumptions C19_exit_status_truthful_l.
 
 (* ---------------------------------------------------------------- c / a *)
 
-(* c -v SIZE for a documented SIZE creates volumes of that size: FALSE ("1000": KeyError escapes) *)
-Theorem C19_create_accepts_help_grammar_refuted :
-  exists v, in_help_grammar v = true /\
-    forall arc p L, fst (fst (run_create (Some v) arc false p L)) = RRaise XKeyError \/
-                    (p && l_getpass_warn L = true).
-Proof. exact create_accepts_help_grammar_refuted. Qed.
-Print Assumptions C19_create_accepts_help_grammar_refuted.
-
-Theorem C19_create_accepts_help_grammar_partial : forall v arc p L,
-  in_help_grammar v = true -> has_unit_suffix v = true -> Z.of_nat (length v) <= 4301 ->
-  p && l_getpass_warn L = false ->
+(* c -v SIZE for a documented SIZE hands the size denoted to multivolumefile, names the archive *.7z, and
+   ends as the library steps end *)
+Theorem C19_create_accepts_help_grammar : forall v arc p L,
+  in_help_grammar v = true -> num_digits v <= 4300 -> p && l_getpass_warn L = false ->
   run_create (Some v) arc false p L = (write_steps L, create_target arc, Some (help_size v)).
-Proof. exact create_accepts_help_grammar_partial. Qed.
-Print Assumptions C19_create_accepts_help_grammar_partial.
+Proof. exact create_accepts_help_grammar. Qed.
+Print Assumptions C19_create_accepts_help_grammar.
 
 Theorem C19_create_no_volume : forall arc p L, p && l_getpass_warn L = false ->
   run_create None arc false p L = (write_steps L, create_target arc, None).
@@ -192,19 +164,21 @@ Print Assumptions C19_append_status.
 Example C19_volsize_example :
   in_help_grammar [50; 107] = true /\ has_unit_suffix [50; 107] = true /\ volumesize_unitconv [50; 107] = Ok 2048
   /\ help_size [49; 50; 103] = 12884901888 /\ in_help_grammar [49; 48; 48; 48] = true
-  /\ has_unit_suffix [49; 48; 48; 48] = false /\ help_size [49; 48; 48; 48] = 1000.
-Proof. vm_compute. auto 10. Qed.
+  /\ has_unit_suffix [49; 48; 48; 48] = false /\ help_size [49; 48; 48; 48] = 1000
+  /\ volumesize_unitconv [49; 48; 48; 48] = Ok 1000 /\ num_digits [49; 48; 48; 48] = 4 /\ num_digits [50; 107] = 1.
+Proof. vm_compute. auto 12. Qed.
 
 Example C19_status_examples :
   cli_status CmdT L_ok = Some 0 /\ test_success L_ok = true /\
   cli_status (CmdX false true) L_ok = Some 0 /\ extract_success false true L_ok = true /\
   cli_status (CmdX false false) L_unsupported = Some 1 /\ cli_status CmdT L_unsupported = None /\
-  proc_status (run_test L_unsupported) = 1 /\ l_work L_unsupported <> Some (XCrc false) /\
+  proc_status (run_test L_unsupported) = 1 /\ proc_status (run_test L_folder_crc) = 1 /\
   cli_status CmdL L_ok = Some 0.
 Proof. vm_compute. repeat split; try reflexivity; discriminate. Qed.
 
 Example C19_create_example :
   run_create (Some [50; 107]) [97] false false L_ok = (RRet (Some 0), [97; 46; 55; 122], Some 2048) /\
+  run_create (Some [49; 48; 48; 48]) [97] false false L_ok = (RRet (Some 0), [97; 46; 55; 122], Some 1000) /\
   run_create (Some [50; 80]) [97] false false L_ok = (RExit 1, [97; 46; 55; 122], None) /\
   run_append [97] true L_ok = RExit 1 /\ run_append [97; 46; 55; 122] true L_ok = RRet (Some 0).
 Proof. vm_compute. auto. Qed.
